@@ -105,7 +105,12 @@ pub const DIRS: [(&str, f64, f64); 4] = [
 
 /// one far unit square added to one operand of a pair of an arbitrary complex family
 pub fn added_case(fam: &Family, enc: Enc, a: u32, b: u32, loc: &mut Local) -> Vec<String> {
-    let (pa, pb) = (&fam.enc(enc)[a as usize], &fam.enc(enc)[b as usize]);
+    added_case_mp(&fam.enc(enc)[a as usize], &fam.enc(enc)[b as usize], loc)
+}
+
+/// the same on arbitrary operands with coordinates in the unit square (float table): the far square sits
+/// at distance 100 and the near rings must be identical, coordinate for coordinate
+pub fn added_case_mp(pa: &MP, pb: &MP, loc: &mut Local) -> Vec<String> {
     let mut cl = vec![];
     for op in OPS {
         let oc = call(pa, pb, op);
@@ -168,6 +173,15 @@ pub fn added_case(fam: &Family, enc: Enc, a: u32, b: u32, loc: &mut Local) -> Ve
 
 pub fn replay(case: &Value, verbose: bool) -> Vec<String> {
     let mut loc = Local::default();
+    if case["kind"] == "table-added" {
+        let spec = TableSpec::from_json(&case["table"]);
+        let t = spec.build();
+        let (a, b) = (&t.ops[case["a"].as_u64().unwrap() as usize].mp, &t.ops[case["b"].as_u64().unwrap() as usize].mp);
+        if verbose {
+            println!("A = {}\nB = {}", hex(a), hex(b));
+        }
+        return added_case_mp(a, b, &mut loc);
+    }
     let fam = family_cached(case["family"].as_str().unwrap());
     let (a, b) = (
         case["a"].as_u64().unwrap() as u32,
@@ -182,6 +196,7 @@ pub fn replay(case: &Value, verbose: bool) -> Vec<String> {
         );
     }
     match case["kind"].as_str().unwrap() {
+        "table-added" => unreachable!(),
         "s22" => s22_case(&fam, a, b, &mut loc),
         _ => added_case(&fam, enc, a, b, &mut loc),
     }
@@ -256,6 +271,34 @@ pub fn run(tier: &str) -> i32 {
             }
             st.merge(&loc);
         });
+    }
+    // float table: every ordered pair of triangles (thorough: of all valid operands with a triangle)
+    {
+        let spec = p_spec(9, st.seed, 1.0, false);
+        let t = spec.build();
+        let n = t.ops.len();
+        let cnt = std::sync::atomic::AtomicU64::new(0);
+        (0..n).into_par_iter().for_each(|ia| {
+            let mut loc = Local::default();
+            for ib in 0..n {
+                use crate::tables::Kind;
+                let (a, b) = (&t.ops[ia], &t.ops[ib]);
+                let ok = if thorough { (a.kind == Kind::Tri || b.kind == Kind::Tri) && a.kind != Kind::Bowtie && b.kind != Kind::Bowtie } else { a.kind == Kind::Tri && b.kind == Kind::Tri };
+                if !ok {
+                    continue;
+                }
+                loc.states += 1;
+                if crate::tables::edge_sets_interact(&a.edges, &b.edges) {
+                    loc.nontrivial += 1;
+                }
+                for c in added_case_mp(&a.mp, &b.mp, &mut loc) {
+                    loc.violation(&c, format!("{}:{ia}:{ib}:{c}", spec.name), json!({"prop": "C09", "kind": "table-added", "table": spec.json(), "a": ia, "b": ib}));
+                }
+            }
+            cnt.fetch_add(loc.states, std::sync::atomic::Ordering::Relaxed);
+            st.merge(&loc);
+        });
+        st.family(&format!("{}: one far unit square added (2 sides x 4 directions x first/last) on {} ordered pairs; near rings compared coordinate for coordinate", spec.name, cnt.into_inner()));
     }
     finish(
         &st,
